@@ -112,3 +112,49 @@ Example reply_abort_run :
     [(1, CallFunction2 2 1001 3 None 79, Some 20)];
     [(1, AbortFunctionCall 2, None); (2, CallFunctionReply 9 CRAborted, None)]; [] ].
 Proof. vm_compute. reflexivity. Qed.
+
+(* ---- steps with a callee whose receiver is gone (DropTask 1: the owner's connection task was
+   dropped, the broker has not noticed yet) *)
+(* a call: nothing can be forwarded; the owner is removed, its service destroyed, and the caller is
+   answered InvalidService within the same step; nothing of the call is left *)
+Example dead_callee_call_run :
+  let h := h_base ++ [inp (DropTask 1) 0 None; inp (Message 2 (CallFunction 9 1001 3 77)) 0 (Some 0)] in
+  drop 6 (outs_after h) = [[(2, CallFunctionReply 9 CRInvalidService, None)]] /\
+  conns (state_after h) !! 1 = None /\ svcs (state_after h) !! (100, 200) = None /\ calls (state_after h) !! 0 = None.
+Proof. cbv zeta. repeat split; vm_compute; reflexivity. Qed.
+
+(* an abort while the service is about to be destroyed (the callee's removal is triggered by the
+   failed AbortFunctionCall notice): the caller gets exactly Aborted; the destruction of the
+   service later in the same step finds the call marked aborted and makes no second reply *)
+Example dead_callee_abort_run :
+  let h := h_called ++ [inp (DropTask 1) 0 None; inp (Message 2 (AbortFunctionCall 9)) 0 None] in
+  drop 7 (outs_after h) = [[(2, CallFunctionReply 9 CRAborted, None)]] /\
+  conns (state_after h) !! 1 = None /\ svcs (state_after h) !! (100, 200) = None /\ calls (state_after h) !! 0 = None.
+Proof. cbv zeta. repeat split; vm_compute; reflexivity. Qed.
+
+(* abort, then destruction in a later step: the aborted call (of connection 2) gets nothing more,
+   the other pending call (of connection 3) gets InvalidService *)
+Example abort_then_destroy_run :
+  drop 7 (outs_after (h_called2 ++ [inp (Message 2 (AbortFunctionCall 9)) 0 None;
+                                    inp (Message 1 (DestroyService 5 1001)) 0 None])) =
+  [ [(1, AbortFunctionCall 0, None); (2, CallFunctionReply 9 CRAborted, None)];
+    [(1, DestroyServiceReply 5 R3Ok, None); (3, CallFunctionReply 9 CRInvalidService, None)] ].
+Proof. vm_compute. reflexivity. Qed.
+
+(* the caller disconnects (its calls are aborted through the work queue: the callee is told, nobody
+   is answered), then the service is destroyed *)
+Example caller_gone_then_destroy_run :
+  drop 7 (outs_after (h_called2 ++ [inp (ConnectionShutdown 2) 0 None;
+                                    inp (Message 1 (DestroyService 5 1001)) 0 None])) =
+  [ [(1, AbortFunctionCall 0, None)];
+    [(1, DestroyServiceReply 5 R3Ok, None); (3, CallFunctionReply 9 CRInvalidService, None)] ].
+Proof. vm_compute. reflexivity. Qed.
+
+(* the hypotheses of C02_call_dead_callee / C02_call_dead_callee_answered are satisfiable *)
+Example call_dead_callee_sat :
+  let s := state_after (h_base ++ [inp (DropTask 1) 0 None]) in
+  conns s !! 2 = Some (get_conn s 2) /\ is_call (get_conn s 2) (CallFunction 9 1001 3 77) 9 1001 3 None 77 /\
+  svc_by_cookie s 1001 = Some ((100, 200), get_svc s (100, 200)) /\ owner_of_svc s (100, 200) = Some 1 /\
+  conns s !! 1 = Some (get_conn s 1) /\ cs_alive (get_conn s 1) = false /\
+  pick_serial s (Some 0) = Some (0, 0) /\ cs_calls (get_conn s 2) !! 9 = None.
+Proof. cbv zeta. repeat split; try (vm_compute; reflexivity); left; split; reflexivity. Qed.
